@@ -73,6 +73,9 @@ def run(pid, tier, replay=None):
                 d["stderr"] = (r.stderr or "")[-1200:]
                 ck.violation("crash:%s:%s" % (name.split("-")[0], d.get("op")), d)
                 continue
+            if r.returncode in (97, 98, 99, -6, -11) or "runtime error" in (r.stderr or "") or "Sanitizer" in (r.stderr or ""):
+                ck.violation("crash:%s:?" % name.split("-")[0], {"what": "sanitizer abort during fault injection", "stderr": (r.stderr or "")[-1500:]})
+                continue
             raise Broken("harness failed on %s rc=%s: %s" % (name, r.returncode, (r.stderr or "")[-2000:]))
         fs = json.loads(m.group(1))
         total_runs += fs["runs"]
